@@ -81,6 +81,16 @@ fn main() {
         i += 1;
     }
     cfg::install_quiet_panic_hook();
+    // generous wall-clock watchdog: a run that does not finish is inconclusive (exit 4), never a verdict
+    {
+        let limit = std::env::var("VERIF_WATCHDOG_S").ok().and_then(|s| s.parse().ok()).unwrap_or(if tier == "thorough" { 6 * 3600 } else { 40 * 60 });
+        let prop = prop.clone();
+        std::thread::spawn(move || {
+            std::thread::sleep(std::time::Duration::from_secs(limit));
+            println!("[{prop}] INCONCLUSIVE: watchdog fired after {limit}s (no verdict)");
+            std::process::exit(4);
+        });
+    }
     let ctx = Ctx::new(&prop, &tier, seed, level_of(&prop));
     if let Some(path) = replay {
         let v: serde_json::Value = serde_json::from_str(&std::fs::read_to_string(&path).expect("read replay")).expect("parse replay");
@@ -99,6 +109,7 @@ fn main() {
             "C11" => c11::replay(&ctx, case),
             "C12" => c12::replay(&ctx, case),
             "C13" => c13::replay(&ctx, case),
+            "C14" => c14::replay(&ctx, case),
             "C15" => c15::replay(&ctx, case),
             "C16" => c16::replay(&ctx, case),
             _ => {
